@@ -111,7 +111,8 @@ Definition parse_number_s (E : env) (positive : bool) (sig : N) (s : st) : res (
   else
     let as_i64 := wrap_i64 (Z.of_N sig) in
     let neg := wrap_i64 (- as_i64) in
-    if (0 <=? neg)%Z then Ok (PF64 (b64_neg (b64_of_Z (Z.of_N sig))), s1)
+    (* negated_u64_as_float with single_precision: -(significand as f32) as f64, one rounding *)
+    if (0 <=? neg)%Z then Ok (PF64 (b64_neg (b64_of_b32 (binary_normalize 24 128 _ _ mode_NE (Z.of_N sig) 0 false))), s1)
     else Ok (PI64 neg, s1).
 
 Definition parse_integer_s (E : env) (positive : bool) (s : st) : res (pnum * st) :=
